@@ -135,8 +135,9 @@ def explore_wrapper(chk, malformed=False):
         return [("val", None, st_), ("raise", exc, s2)]
 
     def cp_summary(eng_, st_, args, kwargs):
-        upd = args[1] if len(args) > 1 else kwargs.get("operation_update")
-        sync = kwargs.get("is_sync", args[2] if len(args) > 2 else True)
+        from .handlers import bind_real
+        b_ = bind_real(eng_, "state.ExecutionState.create_checkpoint", args[1:], kwargs)
+        upd, sync = b_["operation_update"], b_["is_sync"]
         st_.emit("cp", update=upd, is_sync=sync)
         s2 = st_.fork()
         src = eng_.new_symexc(s2, "cp_source")
@@ -187,6 +188,8 @@ def wrapper_obligations(chk, prefix, want):
         chk.engine_stats[k_] = chk.engine_stats.get(k_, 0) + eng.stats[k_]
     limit = eval(compile(ast.Expression(P.resolve_name(P.modules["execution"], "LAMBDA_RESPONSE_SIZE_LIMIT")[1]), "<c>", "eval"), {})
     slen = z3.Function("slen", z3.StringSort(), z3.IntSort())
+    if prefix in ("C16", "C18"):
+        chk.prove(f"{prefix}.exec.limit_within_lambda_max", [], 0 < limit <= 6 * 1024 * 1024, desc=f"LAMBDA_RESPONSE_SIZE_LIMIT read from the source ({limit}) is positive and not above Lambda's 6 MB response limit")
     acls, tcls = P.cls("lambda_service.OperationAction"), P.cls("lambda_service.OperationType")
     n_ret = 0
     for k, v, s in res:
